@@ -9,6 +9,15 @@ PROPS = {
         "state_measure": "not state-based: coverage is counted in enumerated lifetimes (script x crash plan)",
         "assumptions": ["storage.Client calls are atomic and durable when they return", "a hand-off counts as completed when the simulated backend returns a final outcome to a live incarnation", "retry is configured without max_elapsed_time so that a transient answer is never final"],
     },
+    "C04": {
+        "mod": "exp", "test": "TestC04", "level": "exploration", "quick_s": 20, "thorough_s": 420,
+        "step_timeout_s": 8,
+        "technique": "deterministic simulation: generated payloads with unique item ids through the real batcher under seeded schedules of offers, batch outcomes and virtual-clock advances; conservation-with-identity oracle at the export seam",
+        "level_text": "Seeded search over (signal, sizer, min/max/flush_timeout, legacy or queue batcher), generated payloads (arbitrary nesting, empty containers, duplicate resources, oversized single items) and schedules of concurrent offers, batch successes/failures and virtual-clock advances around flush_timeout. Checked after every event: nothing invented or duplicated, every item keeps its full context, size bound, completion exactly after the batches holding the request's items with the right error; at the end: conservation and liveness; non-termination via watchdog.",
+        "level_note": "Trusted: the payload generator/fingerprint (simkit/gen), proto size as computed by pdata. Items are attributed to requests by id, so a part of a request that carries no item (empty containers) cannot be attributed; the completion clauses are relaxed exactly there. Profiles (xexporterhelper) are not generated.",
+        "state_measure": "<#batches in flight, #producers waiting, #batches emitted (bucketed)>",
+        "assumptions": ["retry is disabled so every backend error is a final batch failure", "profiles are not covered by the generator"],
+    },
     "C02": {
         "mod": "exp", "test": "TestC02", "level": "exploration", "quick_s": 20, "thorough_s": 420,
         "step_timeout_s": 6,
